@@ -91,6 +91,16 @@ let process mode oc line =
       let d = match f with FAtlas -> (match delim with [] -> semi | _ -> delim) | _ -> semi in
       let bits = String.concat "" (Stdlib.List.map (fun c -> if scan_closed o d c.c_cmd then "1" else "0") changes) in
       Printf.fprintf oc "%s closed %s\n" id (if bits = "" then "-" else bits)
+    | "read" ->
+      let f = format_of toks.(1) in
+      let o = opts_of_bits toks.(2) in
+      let content = ub toks.(3) in
+      Printf.fprintf oc "%s %s\n" id
+        (match read f o content with
+         | RStmts l -> "read ok " ^ string_of_int (Stdlib.List.length l) ^ String.concat "" (Stdlib.List.map (fun (s : stmt) -> " " ^ hexb s.text) l)
+         | RScanErr k -> "read err " ^ kind_name k
+         | RPragmaErr -> "read err pragma"
+         | RBad -> "read bad")
     | "files" ->
       let f = format_of toks.(1) in
       let n = int_of_string toks.(2) in
